@@ -102,4 +102,59 @@ func init() {
 		Variant{Name: "bypass header no longer bypasses", Property: "C13", File: tri,
 			Old: "\tif common.IsRequestTranslationDisabled(ctx) || len(i.translators) == 0 ||", New: "\tif len(i.translators) == 0 ||", Expect: "O13.5"},
 	)
+	// ---- C14
+	sat := "interceptor/search_attribute_translator.go"
+	addVariants(
+		Variant{Name: "bare-map container form no longer handled", Property: "C14", File: refl,
+			Old: "\t\t\tcase map[string]*common.Payload:\n\t\t\t\tattrs, changed = translateIndexedFields(attrs, match)\n\t\t\t\tif changed {\n\t\t\t\t\tif err := visit.Assign(vwp, reflect.ValueOf(attrs)); err != nil {\n\t\t\t\t\t\treturn visit.Stop, err\n\t\t\t\t\t}\n\t\t\t\t}\n", New: "", Expect: "O14.1"},
+		Variant{Name: "method filter tests the admin prefix", Property: "C14", File: sat,
+			Old: "\t\t\treturn !strings.HasPrefix(method, api.WorkflowServicePrefix)", New: "\t\t\treturn !strings.HasPrefix(method, api.AdminServicePrefix)", Expect: "O14.4"},
+		Variant{Name: "renamed entry gets a fresh payload", Property: "C14", File: refl,
+			Old: "\t\t\tnewIndexed[newKey] = value\n", New: "\t\t\tnewIndexed[newKey] = &common.Payload{Data: value.GetData()}\n", Expect: "O14.3"},
+		Variant{Name: "unmapped keys dropped", Property: "C14", File: refl,
+			Old: "\t\t} else {\n\t\t\tnewIndexed[key] = value\n\t\t}\n\t}\n\treturn newIndexed, anyMatched", New: "\t\t}\n\t}\n\treturn newIndexed, anyMatched", Expect: "O14.3"},
+		Variant{Name: "inbound search-attribute maps not inverted", Property: "C14", File: cc,
+			Old: "\t\tsaTranslations:    saTranslations.Inverse(),\n", New: "\t\tsaTranslations:    saTranslations,\n", Expect: "O14.5"},
+		Variant{Name: "interceptor ignores MatchMethod for responses", Property: "C14", File: tri,
+			Old: "\tfor _, tr := range i.translators {\n\t\tif tr.MatchMethod(info.FullMethod) {\n\t\t\tstart := time.Now()\n\t\t\tchanged, trErr := tr.TranslateResponse(resp)", New: "\tfor _, tr := range i.translators {\n\t\tif tr.MatchMethod(info.FullMethod) || resp != nil {\n\t\t\tstart := time.Now()\n\t\t\tchanged, trErr := tr.TranslateResponse(resp)", Expect: "O14.4"},
+		Variant{Name: "SearchAttributes dropped from the name table", Property: "C14", File: refl,
+			Old: "\t\t\"SearchAttributes\": true,\n", New: "\t\t\"IndexedSearchAttributes\": true,\n", Expect: "O14.1"},
+	)
+	// ---- C18
+	gen := "proto/compat/repair_utf8_gen.go"
+	rep := "proto/compat/repair_utf8.go"
+	adc := "proto/compat/admin_conversion_gen.go"
+	addVariants(
+		Variant{Name: "oneof case deleted from the generated visitor", Property: "C18", File: gen,
+			Old: "\tcase *apihistory.HistoryEvent:\n\t\tswitch oneof := root.GetAttributes().(type) {\n\t\tcase *apihistory.HistoryEvent_ActivityTaskFailedEventAttributes:\n\t\t\tx1 := oneof.ActivityTaskFailedEventAttributes\n\t\t\ty1 := x1.GetFailure()\n\t\t\tif changed, err := repairInvalidUTF8InFailure(y1); err != nil || changed {\n\t\t\t\tret = ret || changed\n\t\t\t\tif err != nil {\n\t\t\t\t\tretErr = err\n\t\t\t\t}\n\t\t\t}\n", New: "\tcase *apihistory.HistoryEvent:\n\t\tswitch oneof := root.GetAttributes().(type) {\n", Expect: "O18.1"},
+		Variant{Name: "conversion table maps a response to the request's legacy type", Property: "C18", File: adc,
+			Old: "\tcase *svc.DescribeMutableStateResponse:\n\t\treturn &svc122.DescribeMutableStateResponse{}, true", New: "\tcase *svc.DescribeMutableStateResponse:\n\t\treturn &svc122.DescribeMutableStateRequest{}, true", Expect: "O18.3"},
+		Variant{Name: "failure chain no longer followed", Property: "C18", File: rep,
+			Old: "\t\tfailure = failure.GetCause()\n", New: "\t\tfailure = nil\n", Expect: "O18.4"},
+		Variant{Name: "depth overflow silently accepted", Property: "C18", File: rep,
+			Old: "\tif failure != nil {\n\t\treturn changed, fmt.Errorf(\"reached maximum failure chain depth\")\n\t}\n", New: "", Expect: "O18.4"},
+		Variant{Name: "repair result dropped in the generated visitor", Property: "C18", File: gen,
+			Old: "\tcase *apifailure.Failure:\n\t\tif changed, err := repairInvalidUTF8InFailure(root); err != nil || changed {\n\t\t\tret = ret || changed\n", New: "\tcase *apifailure.Failure:\n\t\tif changed, err := repairInvalidUTF8InFailure(root); err != nil || changed {\n\t\t\tret = ret || false\n", Expect: "O18.2"},
+		Variant{Name: "repair applied to a fresh value instead of the decoded one", Property: "C18", File: rep,
+			Old: "\tchanged, err := RepairInvalidUTF8(msg122)\n", New: "\tfresh, _ := adminConvertTo122(v)\n\tchanged, err := RepairInvalidUTF8(fresh)\n", Expect: "O18.5"},
+	)
+	// ---- C17
+	cod := "proto/compat/codec.go"
+	gru := "transport/grpcutil/grpc.go"
+	addVariants(
+		Variant{Name: "nil returned when the repair failed", Property: "C17", File: cod,
+			Old: "\t\t\tmetrics.TranslationErrors.WithLabelValues(metrics.UTF8RepairTranslationKind, msgType).Inc()\n\t\t} else {", New: "\t\t\tmetrics.TranslationErrors.WithLabelValues(metrics.UTF8RepairTranslationKind, msgType).Inc()\n\t\t\treturn nil\n\t\t} else {", Expect: "O17.1"},
+		Variant{Name: "repair attempted on every decode error", Property: "C17", File: cod,
+			Old: "\tif common.IsInvalidUTF8Error(err) {\n\t\tstart := time.Now()", New: "\tif err != nil {\n\t\tstart := time.Now()", Expect: "O17.1"},
+		Variant{Name: "repair also rewrites Failure.Source", Property: "C17", File: rep,
+			Old: "\t\t\tfailure.Message = strings.ToValidUTF8(failure.Message, replacementCharacter)\n", New: "\t\t\tfailure.Message = strings.ToValidUTF8(failure.Message, replacementCharacter)\n\t\t\tfailure.Source = strings.ToValidUTF8(failure.Source, replacementCharacter)\n", Expect: "O17.3"},
+		Variant{Name: "nothing-repaired accepted by the codec path", Property: "C17", File: rep,
+			Old: "\tif !changed {\n\t\treturn fmt.Errorf(\"nothing was repaired in type %T\", msg122)\n\t}\n", New: "\t_ = changed\n", Expect: "O17.2"},
+		Variant{Name: "nothing-repaired accepted by the blob path", Property: "C17", File: refl,
+			Old: "\t\t} else {\n\t\t\t// Nothing was repaired, so the blob still cannot be decoded. Report it rather than\n\t\t\t// treating an undecoded blob as examined.\n\t\t\treturn blob, matched, changed, fmt.Errorf(\"invalid utf-8 in history event blob could not be repaired: nothing was repaired\")\n\t\t}\n", New: "\t\t}\n", Expect: "O17.4"},
+		Variant{Name: "dial options no longer force the codec", Property: "C17", File: gru,
+			Old: "\t\t\tgrpc.ForceCodecV2(encoding.GetCodecV2(compat.CodecName)),\n", New: "\t\t\tgrpc.ForceCodecV2(encoding.GetCodecV2(compat.CodecName[:0] + \"proto\")),\n", Expect: "O17.5"},
+		Variant{Name: "re-unmarshal error swallowed", Property: "C17", File: rep,
+			Old: "\tif err := vMarshaler.Unmarshal(repaired); err != nil {\n\t\treturn fmt.Errorf(\"failed to re-unmarshal message %T after repair: %w\", v, err)\n\t}", New: "\t_ = vMarshaler.Unmarshal(repaired)", Expect: "O17.2"},
+	)
 }
